@@ -1,6 +1,315 @@
-//! C19 — not built yet.
-use crate::core::Ctx;
+//! C19 — results do not depend on word size, std feature, debug assertions or serialization medium.
+//! The deterministic case files of dvx/src/cases.rs are evaluated by the `dvx` binary built in four
+//! configurations (mon = 64-bit words + std + debug assertions, rel = no debug assertions,
+//! w32 = force_bits="32", nostd = default-features off) and by this process; every result line
+//! must be identical everywhere (bound-only results — log2 — are checked against the true value
+//! inside each configuration instead).  Serialization: byte-identical encodings across
+//! configurations (part of the case lines), round trips, and decoding of malformed input:
+//! ALL postcard byte strings up to a length bound and a family of JSON documents must yield Err or
+//! a value in canonical form.
+
+#[path = "../../dvx/src/cases.rs"]
+mod cases;
+
+use crate::core::{guard, Ctx, Rec};
+use crate::uni::*;
+use dashu_float::round::mode;
+use dashu_float::FBig;
+use dashu_int::{IBig, UBig};
+use dashu_ratio::{RBig, Relaxed};
+use num_bigint::BigInt;
+use num_integer::Integer;
+use num_traits::{One, Zero};
+use std::path::PathBuf;
+use std::process::Command;
+
+const P: &str = "C19";
+
+fn run_dvx(exe: &PathBuf, sweep: &str, tier: &str, lo: u64, hi: u64) -> Result<Vec<String>, String> {
+    let out = Command::new(exe).arg(sweep).arg(tier).arg(lo.to_string()).arg(hi.to_string()).output().map_err(|e| format!("cannot run {}: {}", exe.display(), e))?;
+    if !out.status.success() {
+        return Err(format!("{} exited with {:?}", exe.display(), out.status));
+    }
+    Ok(String::from_utf8_lossy(&out.stdout).lines().map(|l| l.split_once('\t').map(|x| x.1.to_string()).unwrap_or_default()).collect())
+}
+
+/// first differing result token: its leading non-digit part names the operation
+fn diff_class(a: &str, b: &str) -> String {
+    let (ta, tb): (Vec<&str>, Vec<&str>) = (a.split(' ').collect(), b.split(' ').collect());
+    for (x, y) in ta.iter().zip(tb.iter()) {
+        if x != y {
+            let name: String = x.chars().take_while(|c| !c.is_ascii_digit() && *c != ':' && *c != '[' && *c != '(' && *c != '#').collect();
+            return if name.is_empty() { "operand".into() } else { name };
+        }
+    }
+    "length".into()
+}
 
 pub fn run(ctx: &mut Ctx) {
-    ctx.machinery("check C19 is not built yet");
+    ctx.rule = "every case of the deterministic case files (integer pairs/unary/text over length classes x patterns crossing the thresholds of both word sizes, float and rational operations, serde_json/postcard encodings and round trips, log2 bounds) is evaluated in the configurations {64-bit+std+debug assertions, 64-bit release, 32-bit words, no_std} and in this process; result lines must be identical (log2: bounds must hold in each configuration); malformed-input decoding: all postcard byte strings of length <= 2 (3 thorough) and structured ones, plus JSON documents, for UBig/IBig/RBig/Relaxed/FBig/Repr must give Err or a canonical value. non-trivial = a case line compared across all configurations".into();
+    ctx.assume("the four dvx binaries are built by ./check from the current tree (target/release, target/rel, target-w32, target-nostd); force_bits=\"16\" does not compile on this host and is outside the property's configuration set");
+    let tier = if ctx.quick() { "quick" } else { "thorough" };
+    let thorough = !ctx.quick();
+    let exe = std::env::current_exe().unwrap();
+    let tdir = exe.parent().unwrap().parent().unwrap().to_path_buf(); // .../target
+    let hdir = tdir.parent().unwrap().to_path_buf();
+    let configs: Vec<(&str, PathBuf)> = vec![
+        ("mon", tdir.join("release").join("dvx")),
+        ("rel", tdir.join("rel").join("dvx")),
+        ("w32", hdir.join("target-w32").join("release").join("dvx")),
+        ("nostd", hdir.join("target-nostd").join("release").join("dvx")),
+    ];
+    for (name, p) in &configs {
+        if !p.exists() {
+            ctx.machinery(format!("configuration binary for `{}` not found at {} (./check builds it for C19)", name, p.display()));
+            return;
+        }
+    }
+    // identify the configurations
+    let mut ids = vec![];
+    for (name, p) in &configs {
+        let o = Command::new(p).arg("config").output().map(|o| String::from_utf8_lossy(&o.stdout).trim().to_string()).unwrap_or_default();
+        ids.push(format!("{}: {}", name, o));
+    }
+    let expect = ["word_bits=64 debug_assertions=true std=true", "word_bits=64 debug_assertions=false std=true", "word_bits=32 debug_assertions=true std=true", "word_bits=64 debug_assertions=true std=false"];
+    for (k, id) in ids.iter().enumerate() {
+        if !id.ends_with(expect[k]) {
+            ctx.machinery(format!("configuration binary reports `{}`, expected `{}`", id, expect[k]));
+            return;
+        }
+    }
+    ctx.bound("configurations", serde_json::json!(ids));
+
+    const SHARD: u64 = 400;
+    for sweep in cases::SWEEPS {
+        let n = cases::count(sweep, thorough);
+        let shards = (n + SHARD - 1) / SHARD;
+        let cfgs = &configs;
+        ctx.sweep(&format!("configs.{}", sweep), shards, |si, rec| {
+            let (lo, hi) = (si * SHARD, ((si + 1) * SHARD).min(n));
+            let own: Vec<String> = (lo..hi).map(|i| cases::eval(sweep, thorough, i)).collect();
+            for (cname, exe) in cfgs.iter() {
+                let lines = match run_dvx(exe, sweep, tier, lo, hi) {
+                    Ok(l) => l,
+                    Err(e) => {
+                        rec.fail(format!("{}|{}|configuration-run-failed|{}", P, sweep, cname), format!("cases {}..{}", lo, hi), e, "one result line per case");
+                        continue;
+                    }
+                };
+                if lines.len() != own.len() {
+                    rec.fail(format!("{}|{}|configuration-run-failed|{}", P, sweep, cname), format!("cases {}..{}", lo, hi), format!("{} lines", lines.len()), format!("{} lines", own.len()));
+                    continue;
+                }
+                for (k, (a, b)) in own.iter().zip(lines.iter()).enumerate() {
+                    rec.step();
+                    if *sweep == "log2" {
+                        if b.contains("BAD") {
+                            rec.fail(format!("{}|log2|bounds-do-not-enclose|{}", P, cname), format!("case {} in configuration {}", lo + k as u64, cname), b.clone(), "lb <= log2(x) <= ub");
+                        } else {
+                            rec.hit("log2-bounds-hold");
+                        }
+                        continue;
+                    }
+                    if a != b {
+                        rec.fail(format!("{}|{}|differs-between-configurations|{},{}", P, sweep, cname, diff_class(a, b)), format!("case {}: {}", lo + k as u64, a.split(" => ").next().unwrap_or("")), format!("[{}] {}", cname, b), format!("[this process, mon] {}", a));
+                    } else if a.contains("PANIC") {
+                        rec.hit("same-panic-everywhere");
+                    } else {
+                        rec.hit("identical");
+                    }
+                }
+            }
+            for _ in lo..hi {
+                rec.nontrivial();
+            }
+            rec.sample(|| format!("{} #{}: {}", sweep, lo, crate::core::trunc(&own[0], 300)));
+        });
+        if *sweep == "log2" {
+            ctx.require_classes(&format!("configs.{}", sweep), &["log2-bounds-hold"]);
+        } else {
+            ctx.require_classes(&format!("configs.{}", sweep), &["identical"]);
+        }
+        if let Some(s) = ctx.sweeps.last_mut() {
+            s.states = n;
+            s.extra.insert("cases".into(), serde_json::json!(n));
+        }
+    }
+
+    // ---------------------------------------------------------------------------------------
+    // malformed input: binary (postcard) — every byte string up to the bound, plus structured ones
+    let maxlen = ctx.pick(2usize, 3usize);
+    let mut total: u64 = 0;
+    for l in 0..=maxlen {
+        total += 256u64.pow(l as u32);
+    }
+    let structured: Vec<Vec<u8>> = {
+        let mut v: Vec<Vec<u8>> = vec![];
+        for len in [1u8, 2, 3, 8, 9, 16, 17, 24, 25] {
+            for fill in [0u8, 1, 0x7f, 0x80, 0xff] {
+                for top in [0u8, 1, 0x80, 0xff] {
+                    // a length-prefixed byte string (how big integers are encoded), then a second one
+                    let mut b = vec![len];
+                    b.extend(std::iter::repeat(fill).take(len as usize - 1));
+                    b.push(top);
+                    v.push(b.clone());
+                    let mut c = b.clone();
+                    c.extend_from_slice(&[1, 0]); // e.g. denominator / exponent zero
+                    v.push(c);
+                    let mut d = b.clone();
+                    d.extend_from_slice(&[2, 0, 0]);
+                    v.push(d);
+                    let mut e = b;
+                    e.extend_from_slice(&[1, 6]);
+                    v.push(e);
+                }
+            }
+        }
+        v
+    };
+    let ns = structured.len() as u64;
+    let sr = &structured;
+    ctx.sweep("decode.postcard", total + ns, |i, rec| {
+        let bytes: Vec<u8> = if i < total {
+            let mut k = i;
+            let mut len = 0usize;
+            while k >= 256u64.pow(len as u32) {
+                k -= 256u64.pow(len as u32);
+                len += 1;
+            }
+            (0..len).map(|j| ((k >> (8 * j)) & 0xff) as u8).collect()
+        } else {
+            sr[(i - total) as usize].clone()
+        };
+        decode_check(rec, &bytes);
+        if bytes.len() >= 2 {
+            rec.nontrivial();
+        }
+        rec.sample(|| format!("postcard bytes {:02x?}", bytes));
+    });
+    ctx.require_classes("decode.postcard", &["UBig:ok", "UBig:err", "RBig:ok", "RBig:err", "FBig:ok"]);
+
+    // JSON documents
+    let mut docs: Vec<String> = vec![];
+    let toks = ["0", "1", "-1", "\"0\"", "\"1\"", "\"-1\"", "\"+1\"", "\"1/2\"", "\"2/4\"", "\"1/0\"", "\"0/5\"", "\"-3/-6\"", "\"1.50\"", "\"1e2\"", "\"0x10\"", "\"1_0\"", "\"\"", "\"_\"", "\" 1\"", "\"é\"", "null", "true", "[1,2]", "[]", "{}", "1.5", "1e400", "\"100000000000000000000000000000000000000\"", "{\"numerator\":\"1\",\"denominator\":\"0\"}", "{\"numerator\":\"2\",\"denominator\":\"4\"}", "{\"numerator\":\"1\"}", "{\"numerator\":\"1\",\"denominator\":\"2\",\"denominator\":\"3\"}", "{\"numerator\":\"1\",\"denominator\":\"2\",\"extra\":1}", "{\"significand\":\"10\",\"exponent\":0,\"precision\":1}", "{\"significand\":\"10\",\"exponent\":0}", "{\"significand\":\"123\",\"exponent\":-1,\"precision\":2}", "{\"significand\":\"1\",\"exponent\":\"x\",\"precision\":1}"];
+    for t in toks {
+        docs.push(t.to_string());
+    }
+    let nd = docs.len() as u64;
+    let dr = &docs;
+    ctx.sweep("decode.json", nd, |i, rec| {
+        let d = &dr[i as usize];
+        json_check(rec, d);
+        rec.nontrivial();
+        rec.sample(|| format!("json {}", d));
+    });
+    let _ = (BigInt::zero(), Relaxed::ZERO);
+}
+
+fn canonical_u(rec: &mut Rec, site: &str, case: &str, x: &UBig) {
+    let (cap, len, inline) = x.verif_repr_probe();
+    let w = x.as_words();
+    if (len <= 2 && !inline) || (len > 0 && w[len - 1] == 0) || cap < 0 {
+        rec.fail(format!("{}|{}|non-canonical-value-decoded|integer", P, site), case.to_string(), format!("len {} inline {} capacity {}", len, inline, cap), "canonical integer storage");
+    }
+}
+
+fn decode_check(rec: &mut Rec, bytes: &[u8]) {
+    let case = format!("postcard {:02x?}", bytes);
+    rec.steps(6);
+    match guard(|| postcard::from_bytes::<UBig>(bytes)) {
+        Ok(Ok(v)) => {
+            rec.hit("UBig:ok");
+            canonical_u(rec, "postcard::from_bytes::<UBig>", &case, &v);
+        }
+        Ok(Err(_)) => rec.hit("UBig:err"),
+        Err(p) => rec.fail(format!("{}|postcard::from_bytes::<UBig>|panic|decode", P), case.clone(), p, "Ok or Err"),
+    }
+    match guard(|| postcard::from_bytes::<IBig>(bytes)) {
+        Ok(Ok(v)) => {
+            let (s, m) = v.into_parts();
+            canonical_u(rec, "postcard::from_bytes::<IBig>", &case, &m);
+            if m.is_zero() && s == dashu_base::Sign::Negative {
+                rec.fail(format!("{}|postcard::from_bytes::<IBig>|non-canonical-value-decoded|negative-zero", P), case.clone(), "-0", "0");
+            }
+        }
+        Ok(Err(_)) => {}
+        Err(p) => rec.fail(format!("{}|postcard::from_bytes::<IBig>|panic|decode", P), case.clone(), p, "Ok or Err"),
+    }
+    for relaxed in [false, true] {
+        let r = if relaxed { guard(|| postcard::from_bytes::<Relaxed>(bytes).map(|r| r.into_parts())) } else { guard(|| postcard::from_bytes::<RBig>(bytes).map(|r| r.into_parts())) };
+        let site = if relaxed { "postcard::from_bytes::<Relaxed>" } else { "postcard::from_bytes::<RBig>" };
+        match r {
+            Ok(Ok((n, d))) => {
+                if !relaxed {
+                    rec.hit("RBig:ok");
+                }
+                let (rn, rd) = (i_to_ref(&n), BigInt::from(u_to_ref(&d)));
+                let bad = rd.is_zero() || (!relaxed && !(rn.gcd(&rd).is_one())) || (rn.is_zero() && !rd.is_one() && !relaxed);
+                if bad {
+                    rec.fail(format!("{}|{}|non-canonical-value-decoded|{}", P, site, if rd.is_zero() { "zero-denominator" } else { "not-reduced" }), case.clone(), format!("{}/{}", rn, rd), "Err, or a fraction with a positive denominator coprime to the numerator");
+                }
+            }
+            Ok(Err(_)) => {
+                if !relaxed {
+                    rec.hit("RBig:err");
+                }
+            }
+            Err(p) => rec.fail(format!("{}|{}|panic|decode", P, site), case.clone(), p, "Ok or Err"),
+        }
+    }
+    match guard(|| postcard::from_bytes::<FBig<mode::HalfEven, 10>>(bytes)) {
+        Ok(Ok(v)) => {
+            rec.hit("FBig:ok");
+            let r = v.repr();
+            if !r.is_infinite() {
+                let s = i_to_ref(r.significand());
+                let bad = (s.is_zero() && r.exponent() != 0) || (!s.is_zero() && s.is_multiple_of(&BigInt::from(10))) || (v.precision() != 0 && crate::fref::digits_b(&s, 10) > v.precision());
+                if bad {
+                    rec.fail(format!("{}|postcard::from_bytes::<FBig>|non-canonical-value-decoded|float", P), case.clone(), format!("{} * 10^{} precision {}", s, r.exponent(), v.precision()), "Err, or a normalized significand with at most `precision` digits");
+                }
+            }
+        }
+        Ok(Err(_)) => {}
+        Err(p) => rec.fail(format!("{}|postcard::from_bytes::<FBig>|panic|decode", P), case.clone(), p, "Ok or Err"),
+    }
+}
+
+fn json_check(rec: &mut Rec, doc: &str) {
+    let case = format!("json {}", doc);
+    rec.steps(5);
+    match guard(|| serde_json::from_str::<UBig>(doc)) {
+        Ok(Ok(v)) => canonical_u(rec, "serde_json::from_str::<UBig>", &case, &v),
+        Ok(Err(_)) => rec.hit("json:err"),
+        Err(p) => rec.fail(format!("{}|serde_json::from_str::<UBig>|panic|decode", P), case.clone(), p, "Ok or Err"),
+    }
+    if let Err(p) = guard(|| serde_json::from_str::<IBig>(doc).is_ok()) {
+        rec.fail(format!("{}|serde_json::from_str::<IBig>|panic|decode", P), case.clone(), p, "Ok or Err");
+    }
+    for relaxed in [false, true] {
+        let r = if relaxed { guard(|| serde_json::from_str::<Relaxed>(doc).map(|r| r.into_parts())) } else { guard(|| serde_json::from_str::<RBig>(doc).map(|r| r.into_parts())) };
+        let site = if relaxed { "serde_json::from_str::<Relaxed>" } else { "serde_json::from_str::<RBig>" };
+        match r {
+            Ok(Ok((n, d))) => {
+                let (rn, rd) = (i_to_ref(&n), BigInt::from(u_to_ref(&d)));
+                if rd.is_zero() || (!relaxed && !rn.gcd(&rd).is_one()) {
+                    rec.fail(format!("{}|{}|non-canonical-value-decoded|{}", P, site, if rd.is_zero() { "zero-denominator" } else { "not-reduced" }), case.clone(), format!("{}/{}", rn, rd), "Err or a canonical fraction");
+                } else {
+                    rec.hit("json:ok");
+                }
+            }
+            Ok(Err(_)) => rec.hit("json:err"),
+            Err(p) => rec.fail(format!("{}|{}|panic|decode", P, site), case.clone(), p, "Ok or Err"),
+        }
+    }
+    match guard(|| serde_json::from_str::<FBig<mode::HalfEven, 10>>(doc)) {
+        Ok(Ok(v)) => {
+            let r = v.repr();
+            let s = i_to_ref(r.significand());
+            if !r.is_infinite() && ((!s.is_zero() && s.is_multiple_of(&BigInt::from(10))) || (v.precision() != 0 && crate::fref::digits_b(&s, 10) > v.precision())) {
+                rec.fail(format!("{}|serde_json::from_str::<FBig>|non-canonical-value-decoded|float", P), case.clone(), format!("{} * 10^{} precision {}", s, r.exponent(), v.precision()), "Err or a normalized value within its precision");
+            }
+        }
+        Ok(Err(_)) => {}
+        Err(p) => rec.fail(format!("{}|serde_json::from_str::<FBig>|panic|decode", P), case, p, "Ok or Err"),
+    }
 }
